@@ -3,13 +3,15 @@
 quick checks named in CHECKS env (space separated) against it, recording which caught it."""
 import sys, os, json, shutil, subprocess, re
 pid = sys.argv[1]; needs = " ".join(sys.argv[2:])
-wt = f"/tmp/wt-{pid}"; dst = f"/verif/seeded/{pid}"
+rnd = os.environ.get("ROUND", "")
+wt = f"/tmp/wt{rnd}-{pid}"; dst = f"/verif/seeded/{pid}" + (f"-{rnd}" if rnd else "")
 os.makedirs(dst, exist_ok=True)
 shutil.copy(f"{wt}/patch.diff", f"{dst}/patch.diff")
 demo = f"{wt}/chitchat/src/demo_{pid.lower()}.rs"
 if os.path.exists(demo): shutil.copy(demo, f"{dst}/demo_{pid.lower()}.rs")
 if os.path.exists(f"{wt}/NOTES.md"): shutil.copy(f"{wt}/NOTES.md", f"{dst}/NOTES.md")
-confirm = open(f"/tmp/confirm-{pid}.log").read() if os.path.exists(f"/tmp/confirm-{pid}.log") else ""
+cl = f"/tmp/confirm{rnd}-{pid}.log"
+confirm = open(cl).read() if os.path.exists(cl) else ""
 open(f"{dst}/confirm.log", "w").write(confirm)
 checks = os.environ.get("CHECKS", pid).split()
 assert subprocess.run("git -C /repo status --porcelain", shell=True, capture_output=True, text=True).stdout.strip() == ""
@@ -26,6 +28,6 @@ finally:
 meta = {"property": pid, "breaks": pid, "source": "sub-agent given only the property text and a scratch worktree",
         "needs_to_manifest": needs,
         "confirmed": {"how": "tools/seed_confirm.sh in the agent's scratch worktree: full `cargo test -p chitchat` with the change, demo without the change, demo with the change", "log": "confirm.log"},
-        "ran": [f"git -C /repo apply seeded/{pid}/patch.diff; ./check {c} quick; git -C /repo checkout -- ." for c in checks],
+        "ran": [f"git -C /repo apply {dst}/patch.diff; ./check {c} quick; git -C /repo checkout -- ." for c in checks],
         "results": res}
 json.dump(meta, open(f"{dst}/meta.json", "w"), indent=1)
